@@ -33,6 +33,9 @@ type argBuilder struct {
 
 	funcName string
 	funcOnce bool
+
+	// genErr accumulates the errors returned by converter generators.
+	genErr error
 }
 
 func newArgBuilder(opts ...Arg) (*argBuilder, error) {
@@ -349,8 +352,8 @@ func (b *argBuilder) graph(log hclog.Logger, g *graph.Graph, root graph.Vertex) 
 			for _, gen := range b.convGens {
 				f, err := gen(*value)
 				if err != nil {
-					// TODO: return
-					panic(err)
+					b.genErr = multierror.Append(b.genErr, err)
+					continue
 				}
 				if f == nil {
 					continue
